@@ -101,8 +101,8 @@ def _mc(scratch: Path, run: dict, workers: int) -> dict:
             "constants": run["c"], "trace": trace, "raw": r.trace[:6000], "finding": run.get("finding")}
 
 
-def _simulate(scratch: Path, name: str, c: dict, num: int, depth: int, seed: int, mod: str = MC_MOD) -> list[Path]:
-    cfg = tlc.cfg_text(spec="Spec", constants=c)
+def _simulate(scratch: Path, name: str, c: dict, num: int, depth: int, seed: int, mod: str = MC_MOD, spec: str = "Spec") -> list[Path]:
+    cfg = tlc.cfg_text(spec=spec, constants=c)
     d = tlc.stage(scratch, "sim_" + name, ["Shm"], {"MC.tla": mod, "MC.cfg": cfg})
     out = d / "b"
     out.mkdir(exist_ok=True)
@@ -122,7 +122,7 @@ files, sizes, cap, out = json.load(open(sys.argv[1][1:])) if sys.argv[1].startsw
 res = []
 for f in files:
     beh = tlc.parse_sim_file(Path(f)) if f.endswith(".json") is False else [tuple(x) for x in json.load(open(f))]
-    r = shm.replay(beh, sizes, cap)
+    r = shm.replay(beh, sizes, cap, fast_disk="/sim_fast" in f)
     r["file"] = f
     r["actions"] = [list(map(str, s["last"])) for _, s in beh[1:]]
     r["tainted"] = [sorted(s["tainted"]) for _, s in beh[1:]]
@@ -226,6 +226,9 @@ def run_engine(ctx: Ctx) -> dict:
     sims += [(f, {"a": 1, "b": 2}, 2) for f in
              _simulate(scratch, "two", consts(Key='{"a", "b"}', Cap="2", MaxClock="40", AllowFail="TRUE", AllowStale="TRUE"),
                        num // 2, 50, ctx.seed + 13, MC_MOD2)]
+    # the "fast disk" schedule: page-out jobs run to their end inside the submit (Shm!FastDiskSpec)
+    sims += [(f, KEYS, CAP) for f in _simulate(scratch, "fast", consts(AllowStale="TRUE", MaxClock="30", MaxReaders="3"), num // 2, 40,
+                                               ctx.seed + 14, spec="FastDiskSpec")]
     groups: dict[tuple, list[Path]] = {}
     for f, sizes, cap in sims:
         groups.setdefault((json.dumps(sizes, sort_keys=True), cap), []).append(f)
